@@ -146,6 +146,8 @@ def execute(case):
       extra.append(['aw', False])
     return r, extra
   root, extra = protect(root, prot)
+  if mode == 'ctor':
+    prot = root        # (the root was rebuilt with sealed=True)
   nodes = treeops.preorder(root)
   # scope stack: the protection scope is outermost, then the generated overrides
   stack = extra + scopes
@@ -153,7 +155,12 @@ def execute(case):
   aw_scope = _innermost(stack, 'aw')
 
   def sealed_eff(n):
-    return n.sym_sealed if sealed_scope is None else sealed_scope
+    if sealed_scope is not None:
+      return sealed_scope
+    if mode in ('seal', 'ctor'):
+      # sealing covers the whole subtree (decided from the tree, not from the flag the node reports)
+      return treeops.is_ancestor_or_self(prot, n)
+    return n.sym_sealed
 
   def aw_eff(n):
     return n.accessor_writable if aw_scope is None else aw_scope
